@@ -1,8 +1,18 @@
--- Root of the `ThriftVerif` library: imports every model, proof and property module.
+-- Root of the `ThriftVerif` library: imports every model, proof, fact and property module.
 import ThriftVerif.Wire.Bytes
 import ThriftVerif.Wire.Value
 import ThriftVerif.Wire.Text
 import ThriftVerif.Wire.Skip
 import ThriftVerif.Wire.Envelope
+import ThriftVerif.Wire.Writer
 import ThriftVerif.Wire.RoundTrip
 import ThriftVerif.Wire.Canonical
+import ThriftVerif.Wire.Totality
+import ThriftVerif.Wire.SkipProofs
+import ThriftVerif.Wire.LazyProofs
+import ThriftVerif.Wire.EnvelopeProofs
+import ThriftVerif.Facts.GenWire
+import ThriftVerif.Facts.ExpectWire
+import ThriftVerif.Properties.C02
+import ThriftVerif.Properties.C03
+import ThriftVerif.Properties.C12
